@@ -6,6 +6,7 @@ F="$(realpath "$1")"
 case "$F" in
   *_test.go)
     PKG=$(sed -n 's|^// replay-pkg: *||p' "$F" | head -1)
-    exec sh "$(dirname "$0")/replay/run_overlay.sh" "$PKG" "$F" ;;
+    TESTS=$(sed -n 's/^func \(Test[A-Za-z0-9_]*\)(.*/\1/p' "$F" | paste -sd'|')
+    exec sh "$(dirname "$0")/replay/run_overlay.sh" "$PKG" "$F" -run "^($TESTS)\$" ;;
   *) cat "$F" ;;
 esac
